@@ -130,28 +130,30 @@ def packBits : Nat → List Bool → Bytes
   | 0, _ => []
   | n + 1, bs => UInt8.ofNat (packByte (bs.take 8)) :: packBits n (bs.drop 8)
 
+/-- The null bitset as it goes into aux: present only if some row is null. -/
+def auxNulls (isNull : List Bool) : Bytes :=
+  if isNull.any id then packBits ((isNull.length + 7) / 8) isNull else []
+
+/-- `(8 - ((ColumnBlockHeader::LEN + aux_len) % 8)) % 8` -/
+def padFor (aux0 : Nat) : Nat := (8 - (12 + aux0) % 8) % 8
+
 /-- The I64 / U64 / F64 arms of `finish`: `none` rows get a null bit and a zero word. The
 payload start is padded to a multiple of 8 counted from the block start; the pad bytes are
 part of `aux_len`. -/
 def encodeFixed (phys : Phys) (words : List (Option Nat)) : Bytes :=
-  let n := words.length
-  let anyNull := words.any Option.isNone
-  let nulls := packBits ((n + 7) / 8) (words.map Option.isNone)
-  let aux0 := if anyNull then nulls.length else 0
-  let pad := (8 - (12 + aux0) % 8) % 8
-  header phys anyNull n (aux0 + pad)
-    ++ (if anyNull then nulls else [])
+  let nulls := auxNulls (words.map Option.isNone)
+  let pad := padFor nulls.length
+  header phys (words.any Option.isNone) words.length (nulls.length + pad)
+    ++ nulls
     ++ List.replicate pad 0
     ++ words.flatMap (fun w => leBytes 8 (w.getD 0))
 
 /-- The Bool arm: optional null bitset in aux, value bitset as payload, no padding. -/
 def encodeBool (vals : List (Option Bool)) : Bytes :=
-  let n := vals.length
-  let bitsLen := (n + 7) / 8
-  let anyNull := vals.any Option.isNone
-  header .bool anyNull n (if anyNull then bitsLen else 0)
-    ++ (if anyNull then packBits bitsLen (vals.map Option.isNone) else [])
-    ++ packBits bitsLen (vals.map (· == some true))
+  let nulls := auxNulls (vals.map Option.isNone)
+  header .bool (vals.any Option.isNone) vals.length nulls.length
+    ++ nulls
+    ++ packBits ((vals.length + 7) / 8) (vals.map (· == some true))
 
 /-- The default arm: `row_count` u32 lengths in aux, then the concatenated bytes. -/
 def encodeVar (ss : List Bytes) : Bytes :=
@@ -237,39 +239,41 @@ def legacyCells (bs : Bytes) : Nat → Nat → Option (List Cell)
 def alignUp (off align : Nat) : Nat :=
   if off % align = 0 then off else off + (align - off % align)
 
+/-- The per-type decoders on a parsed header; `rest` is the block after its 12 header bytes. -/
+def decodeBody (entryRows : Nat) (phys : Phys) (hasNulls : Bool) (rowCount auxLen : Nat)
+    (rest : Bytes) : Option (Phys × List Cell) :=
+  if auxLen > rest.length then none
+  else
+    let rows := if rowCount = 0 then entryRows else rowCount
+    match phys with
+    | .i64 | .u64 | .f64 =>
+      let payloadOff := alignUp (12 + auxLen) 8 - 12
+      if payloadOff + rows * 8 > rest.length then none
+      else
+        let mk : Nat → Cell := match phys with
+          | .i64 => fun w => .i64 (ofWord w)
+          | .u64 => .u64
+          | _ => .f64
+        (fixedCells mk rest payloadOff rows hasNulls).map (phys, ·)
+    | .bool =>
+      if auxLen + (rows + 7) / 8 > rest.length then none
+      else (boolCells rest auxLen rows hasNulls).map (phys, ·)
+    | .varBytes | .i32Date =>
+      if rowCount * 4 ≠ auxLen then none
+      else
+        match varRanges rest (rest.length - auxLen) rowCount 0 0 with
+        | none => none
+        | some ranges =>
+          some (phys, ranges.map fun (start, len) => .bytes ((rest.drop (auxLen + start)).take len))
+
 /-- `ColumnReader::build_zero_copy_values` followed by reading every row.
 `entryRows` is `ZoneBlockEntry::num_rows` from the `.zfc` index. Result: the physical type
 recorded in the snapshot and the rows. -/
 def decodeBlock (entryRows : Nat) (bs : Bytes) : Option (Phys × List Cell) :=
   match bs with
   | c :: f :: _ :: _ :: r0 :: r1 :: r2 :: r3 :: a0 :: a1 :: a2 :: a3 :: rest =>
-    let rowCount := unLe [r0, r1, r2, r3]
-    let auxLen := unLe [a0, a1, a2, a3]
-    if auxLen > rest.length then none
-    else
-      let phys := Phys.ofCode c.toNat
-      let hasNulls := f.toNat % 2 == 1
-      let rows := if rowCount = 0 then entryRows else rowCount
-      match phys with
-      | .i64 | .u64 | .f64 =>
-        let payloadOff := alignUp (12 + auxLen) 8 - 12
-        if payloadOff + rows * 8 > rest.length then none
-        else
-          let mk : Nat → Cell := match phys with
-            | .i64 => fun w => .i64 (ofWord w)
-            | .u64 => .u64
-            | _ => .f64
-          (fixedCells mk rest payloadOff rows hasNulls).map (phys, ·)
-      | .bool =>
-        if auxLen + (rows + 7) / 8 > rest.length then none
-        else (boolCells rest auxLen rows hasNulls).map (phys, ·)
-      | .varBytes | .i32Date =>
-        if rowCount * 4 ≠ auxLen then none
-        else
-          match varRanges rest (rest.length - auxLen) rowCount 0 0 with
-          | none => none
-          | some ranges =>
-            some (phys, ranges.map fun (start, len) => .bytes ((rest.drop (auxLen + start)).take len))
+    decodeBody entryRows (Phys.ofCode c.toNat) (f.toNat % 2 == 1)
+      (unLe [r0, r1, r2, r3]) (unLe [a0, a1, a2, a3]) rest
   | _ => (legacyCells bs entryRows 0).map (Phys.varBytes, ·)
 
 /-! ### the column a block denotes -/
